@@ -1,4 +1,5 @@
-(* CachesProofs.v — lemmas about the cache model of Caches.v (property C13). *)
+(* CachesProofs.v — lemmas about the cache model of Caches.v (property C13).
+   Every lemma about steps is proved for both values of the switch `fixed_clear` (parameter fx of step_with). *)
 From Coq Require Import List String ZArith QArith Qcanon Bool Arith Lia.
 From PV Require Import Caches.
 Import ListNotations.
@@ -77,37 +78,45 @@ Lemma mc_ok_nil : mc_ok [].
 Proof. intros k m []. Qed.
 
 (* ------------------------------------------------------------------ what a step does to the module cache *)
-Lemma compile_obj_mc_ok : forall g o m vec clr, mc_ok (module_cache g) -> mc_ok (module_cache (fst (compile_obj g o m vec clr))).
+Lemma compile_obj_mc : forall g o m vec clr,
+  module_cache (fst (compile_obj g o m vec clr)) =
+  c_mc (compile_core (op_cache g) (node_cache g) (node_labels g) (in_edge_indices g) (in_edge_vars g) (module_cache g) m vec).
+Proof. intros. unfold compile_obj. destruct (c_obs _); cbn; try reflexivity. destruct clr; reflexivity. Qed.
+
+Lemma fcompile_obj_mc : forall g o m file clr, module_cache (fst (fcompile_obj g o m file clr)) = module_cache g.
 Proof.
-  intros. unfold compile_obj.
-  pose proof (compile_core_mc_ok (op_cache g) (node_cache g) (node_labels g) (in_edge_indices g) (in_edge_vars g)
-                (module_cache g) m vec H) as K.
-  destruct (c_obs _); cbn; try exact K. destruct clr; cbn; exact K.
+  intros. unfold fcompile_obj. destruct (c_obs _); cbn; try reflexivity.
+  destruct (existsb _ _); cbn; [reflexivity|]. destruct clr; reflexivity.
 Qed.
+
+Lemma compile_obj_mc_ok : forall g o m vec clr, mc_ok (module_cache g) -> mc_ok (module_cache (fst (compile_obj g o m vec clr))).
+Proof. intros. rewrite compile_obj_mc. apply compile_core_mc_ok. assumption. Qed.
 
 Lemma from_yaml_mc : forall g, module_cache (fst (from_yaml g)) = module_cache g.
 Proof. intros. unfold from_yaml. destruct (template_cache g); reflexivity. Qed.
 
-Lemma step_mc_ok : forall g o, mc_ok (module_cache g) -> mc_ok (module_cache (fst (step g o))).
+Lemma step_mc_ok : forall fx g o, mc_ok (module_cache g) -> mc_ok (module_cache (fst (step_with fx g o))).
 Proof.
-  intros g o H. destruct o; cbn [step].
+  intros fx g o H. destruct o; cbn [step_with].
   - apply compile_obj_mc_ok. exact H.
   - apply compile_obj_mc_ok. exact H.
+  - apply compile_obj_mc_ok. exact H.
+  - cbn [new_obj]. rewrite fcompile_obj_mc. exact H.
   - destruct (from_yaml g) as [g1 e] eqn:E. apply compile_obj_mc_ok. cbn.
     replace g1 with (fst (from_yaml g)) by (rewrite E; reflexivity). rewrite from_yaml_mc. exact H.
   - destruct (from_yaml g) as [g1 e] eqn:E. cbn.
     replace g1 with (fst (from_yaml g)) by (rewrite E; reflexivity). rewrite from_yaml_mc. exact H.
-  - destruct (handle g h); [destruct (has_ir g n)|]; cbn; exact H.
-  - destruct (handle g h); [destruct (has_ir g n)|]; cbn; exact H.
+  - destruct (handle g h); [destruct (has_ir g n)|]; destruct fx; cbn; exact H.
+  - destruct (handle g h); [destruct (has_ir g n)|]; destruct fx; cbn; exact H.
   - cbn. exact H.
 Qed.
 
-Lemma run_hist_mc_ok : forall h g, mc_ok (module_cache g) -> mc_ok (module_cache (run_hist h g)).
+Lemma run_hist_mc_ok : forall fx h g, mc_ok (module_cache g) -> mc_ok (module_cache (run_hist_with fx h g)).
 Proof.
   induction h as [|o h IH]; intros g H; [exact H|]. cbn. apply IH. apply step_mc_ok. exact H.
 Qed.
 
-Lemma reachable_mc_ok : forall h, mc_ok (module_cache (run_hist h G0)).
+Lemma reachable_mc_ok : forall fx h, mc_ok (module_cache (run_hist_with fx h G0)).
 Proof. intros. apply run_hist_mc_ok. apply mc_ok_nil. Qed.
 
 (* ------------------------------------------------------------------ the observable of a compilation reads only proj *)
@@ -119,158 +128,288 @@ Proof. intros. unfold compile_obj. destruct (c_obs _); reflexivity. Qed.
 Lemma obs_of_core : forall g m vec, mc_ok (module_cache g) ->
   obs_of g m vec = c_obs (compile_core (op_cache g) (node_cache g) (node_labels g) (in_edge_indices g) [] [] m vec).
 Proof.
-  intros. unfold obs_of. cbn [step new_obj]. rewrite snd_compile_obj. cbn. apply compile_core_obs. exact H.
+  intros. unfold obs_of. cbn [step_with new_obj]. rewrite snd_compile_obj. cbn. apply compile_core_obs. exact H.
 Qed.
 
 Lemma is_nil_true : forall A (l : list A), is_nil l = true -> l = [].
 Proof. destruct l; [reflexivity|discriminate]. Qed.
 
 Lemma caches_clean_fields : forall g, caches_clean g = true ->
-  op_cache g = [] /\ node_cache g = [] /\ node_labels g = [] /\ in_edge_indices g = [] /\ in_edge_vars g = [] /\ input_labels g = [].
+  op_cache g = [] /\ node_cache g = [] /\ node_labels g = [] /\ in_edge_indices g = [] /\ in_edge_vars g = [] /\
+  input_labels g = [] /\ sys_py (mods g) = [].
 Proof.
   unfold caches_clean. intros g H. repeat (apply andb_true_iff in H as [H ?]).
   repeat split; apply is_nil_true; assumption.
 Qed.
 
+Lemma fields_caches_clean : forall g,
+  op_cache g = [] -> node_cache g = [] -> node_labels g = [] -> in_edge_indices g = [] -> in_edge_vars g = [] ->
+  input_labels g = [] -> sys_py (mods g) = [] -> caches_clean g = true.
+Proof. intros g A B C D E F P. unfold caches_clean. rewrite A, B, C, D, E, F, P. reflexivity. Qed.
+
 Lemma clean_proj : forall g, clean g = true <-> proj g = proj G0.
 Proof.
   intros g. split.
   - unfold clean. intros H. apply andb_true_iff in H as [H1 H2].
-    apply caches_clean_fields in H1 as (A & B & C & D & E & F).
-    unfold proj. rewrite A, B, C, D, E, F. unfold template_clean in H2. cbn.
+    apply caches_clean_fields in H1 as (A & B & C & D & E & F & P).
+    unfold proj. rewrite A, B, C, D, E, F, P. unfold template_clean in H2. cbn.
     destruct (match template_cache g with Some e => tc_kA e | None => None end); [discriminate|reflexivity].
-  - intros H. unfold proj in H. cbn in H. injection H as A B C D E F T.
-    unfold clean, caches_clean, template_clean. rewrite A, B, C, D, E, F, T. reflexivity.
+  - intros H. unfold proj in H. cbn in H. injection H as A B C D E F P T.
+    unfold clean, caches_clean, template_clean. rewrite A, B, C, D, E, F, P, T. reflexivity.
 Qed.
 
 Theorem obs_of_clean : forall g m vec, mc_ok (module_cache g) -> caches_clean g = true -> obs_of g m vec = obs_of G0 m vec.
 Proof.
   intros g m vec Hm Hc. rewrite obs_of_core by exact Hm. rewrite (obs_of_core G0) by apply mc_ok_nil.
-  apply caches_clean_fields in Hc as (A & B & C & D & _ & _). rewrite A, B, C, D. reflexivity.
+  apply caches_clean_fields in Hc as (A & B & C & D & _). rewrite A, B, C, D. reflexivity.
 Qed.
 
 (* history independence, compiled models *)
-Theorem partial_compile : forall h m vec, CachesClean h = true -> obs_of (run_hist h G0) m vec = obs_of G0 m vec.
+Theorem partial_compile_fx : forall fx h m vec, caches_clean (run_hist_with fx h G0) = true ->
+  obs_of (run_hist_with fx h G0) m vec = obs_of G0 m vec.
 Proof. intros. apply obs_of_clean; [apply reachable_mc_ok|exact H]. Qed.
+
+Theorem partial_compile : forall h m vec, CachesClean h = true -> obs_of (run_hist h G0) m vec = obs_of G0 m vec.
+Proof. intros h m vec. exact (partial_compile_fx fixed_clear h m vec). Qed.
 
 Lemma obs_of_yaml_core : forall g, mc_ok (module_cache g) ->
   obs_of_yaml g = c_obs (compile_core (op_cache g) (node_cache g) (node_labels g) (in_edge_indices g) [] []
                           (ymodel (match template_cache g with Some e => tc_kA e | None => None end)) false).
 Proof.
-  intros g H. unfold obs_of_yaml. cbn [step]. unfold from_yaml.
+  intros g H. unfold obs_of_yaml. cbn [step_with]. unfold from_yaml.
   destruct (template_cache g) as [e|] eqn:E; cbn; rewrite snd_compile_obj; cbn; apply compile_core_obs; exact H.
 Qed.
 
 (* history independence, templates loaded from YAML *)
+Theorem partial_yaml_fx : forall fx h, caches_clean (run_hist_with fx h G0) = true -> template_clean (run_hist_with fx h G0) = true ->
+  obs_of_yaml (run_hist_with fx h G0) = obs_of_yaml G0.
+Proof.
+  intros fx h Hc Ht.
+  rewrite obs_of_yaml_core by apply reachable_mc_ok. rewrite (obs_of_yaml_core G0) by apply mc_ok_nil.
+  apply caches_clean_fields in Hc as (A & B & C & D & _). rewrite A, B, C, D.
+  unfold template_clean in Ht. cbn.
+  destruct (match template_cache (run_hist_with fx h G0) with Some e => tc_kA e | None => None end); [discriminate|reflexivity].
+Qed.
+
 Theorem partial_yaml : forall h, Compatible h = true -> obs_of_yaml (run_hist h G0) = obs_of_yaml G0.
 Proof.
   intros h H. unfold Compatible in H. apply andb_true_iff in H as [Hc Ht].
-  rewrite obs_of_yaml_core by apply reachable_mc_ok. rewrite (obs_of_yaml_core G0) by apply mc_ok_nil.
-  apply caches_clean_fields in Hc as (A & B & C & D & _ & _). rewrite A, B, C, D.
-  unfold TemplateClean, template_clean in Ht. cbn.
-  destruct (match template_cache (run_hist h G0) with Some e => tc_kA e | None => None end); [discriminate|reflexivity].
+  exact (partial_yaml_fx fixed_clear h Hc Ht).
 Qed.
+
+(* Fortran backend: what the observable reads *)
+Definition fobs (opc : list (string * (expr * Qc))) (nodec : list (expr * cnode)) (labels : list (string * nat))
+           (iei : list (string * nat)) (iev : list string) (py : list string) (ext : list (string * code))
+           (m : model) (file : string) : obs :=
+  let c := compile_core opc nodec labels iei iev [] m false in
+  match c_obs c with
+  | OOk _ _ _ _ =>
+      if existsb (String.eqb file) py then OErr "ImportError"
+      else with_dy (c_obs c) (run_code (match lookup String.eqb file ext with Some s => s | None => c_src c end) (c_args c))
+  | _ => c_obs c
+  end.
+
+Lemma obs_of_fortran_core : forall g m file,
+  obs_of_fortran g m file = fobs (op_cache g) (node_cache g) (node_labels g) (in_edge_indices g) (in_edge_vars g)
+                                 (sys_py (mods g)) (ext_mods (mods g)) m file.
+Proof.
+  intros. unfold obs_of_fortran, fobs. cbn [step_with new_obj]. unfold fcompile_obj. cbn.
+  destruct (c_obs _); try reflexivity. destruct (existsb _ _); reflexivity.
+Qed.
+
+(* history independence, Fortran backend: additionally nothing may have been imported as an extension module before *)
+Theorem partial_fortran_fx : forall fx h m file,
+  caches_clean (run_hist_with fx h G0) = true -> fortran_clean (run_hist_with fx h G0) = true ->
+  obs_of_fortran (run_hist_with fx h G0) m file = obs_of_fortran G0 m file.
+Proof.
+  intros fx h m file Hc Hf. rewrite !obs_of_fortran_core.
+  apply caches_clean_fields in Hc as (A & B & C & D & E & _ & P). unfold fortran_clean in Hf. apply is_nil_true in Hf.
+  rewrite A, B, C, D, E, P, Hf. reflexivity.
+Qed.
+
+Theorem partial_fortran : forall h m file, CachesClean h = true -> FortranClean h = true ->
+  obs_of_fortran (run_hist h G0) m file = obs_of_fortran G0 m file.
+Proof. intros h m file. exact (partial_fortran_fx fixed_clear h m file). Qed.
 
 (* ------------------------------------------------------------------ reset points *)
-(* circuit.clear() on a circuit that holds an IR resets every cache a compilation reads — and not the template cache *)
-Theorem clear_resets : forall g h ob, handle g h = Some ob -> has_ir g ob = true ->
-  caches_clean (fst (step g (MClear h))) = true /\
-  template_cache (fst (step g (MClear h))) = template_cache g /\ snd (step g (MClear h)) = OAck.
-Proof. intros g h ob H1 H2. cbn [step]. rewrite H1, H2. cbn. auto. Qed.
+Definition frontend_clean (g : G) : bool :=
+  is_nil (op_cache g) && is_nil (node_cache g) && is_nil (node_labels g) && is_nil (in_edge_indices g) &&
+  is_nil (in_edge_vars g) && is_nil (input_labels g).
 
-(* ... and raises AttributeError, resetting nothing, on a circuit without IR (never compiled, or already cleared) *)
-Theorem clear_without_ir : forall g h, (forall ob, handle g h = Some ob -> has_ir g ob = false) ->
-  step g (MClear h) = (g, OErr "AttributeError").
+(* default-backend compilations read the frontend caches only (not the table of Python modules) *)
+Theorem partial_compile_frontend : forall fx h m vec, frontend_clean (run_hist_with fx h G0) = true ->
+  obs_of (run_hist_with fx h G0) m vec = obs_of G0 m vec.
 Proof.
-  intros g h H. cbn [step]. destruct (handle g h) as [ob|] eqn:E; [|reflexivity]. rewrite (H ob eq_refl). reflexivity.
+  intros fx h m vec H. rewrite obs_of_core by apply reachable_mc_ok. rewrite (obs_of_core G0) by apply mc_ok_nil.
+  unfold frontend_clean in H. repeat (apply andb_true_iff in H as [H ?]).
+  repeat match goal with K : is_nil _ = true |- _ => apply is_nil_true in K; rewrite K; clear K end. reflexivity.
 Qed.
 
-(* pyrates.clear(circuit) on a circuit that holds an IR: everything, template cache included *)
-Theorem uclear_resets : forall g h ob, handle g h = Some ob -> has_ir g ob = true -> clean (fst (step g (UClear h))) = true.
-Proof. intros g h ob H1 H2. cbn [step]. rewrite H1, H2. reflexivity. Qed.
+(* circuit.clear() on a circuit that holds an IR resets every frontend cache a compilation reads and drops the Python module
+   registered under the circuit's file name — and not the template cache (either value of the switch) *)
+Theorem clear_resets : forall fx g h ob, handle g h = Some ob -> has_ir g ob = true ->
+  frontend_clean (fst (step_with fx g (MClear h))) = true /\
+  sys_py (mods (fst (step_with fx g (MClear h)))) = remove_s (file_of g ob) (sys_py (mods g)) /\
+  template_cache (fst (step_with fx g (MClear h))) = template_cache g /\ snd (step_with fx g (MClear h)) = OAck.
+Proof. intros fx g h ob H1 H2. cbn [step_with]. rewrite H1, H2. cbn. auto. Qed.
 
-(* pyrates.clear(circuit) on a circuit without IR is clear_frontend_caches(): in_edge_indices, in_edge_vars, input_labels stay *)
-Theorem uclear_without_ir : forall g h, (forall ob, handle g h = Some ob -> has_ir g ob = false) ->
-  fst (step g (UClear h)) = cfc true true g.
+(* BEFORE THE FIX: it raises AttributeError, resetting nothing, on a circuit without IR (never compiled, or already cleared) *)
+Theorem clear_without_ir_before_fix : forall g h, (forall ob, handle g h = Some ob -> has_ir g ob = false) ->
+  step_with false g (MClear h) = (g, OErr "AttributeError").
 Proof.
-  intros g h H. cbn [step]. destruct (handle g h) as [ob|] eqn:E; [|reflexivity]. rewrite (H ob eq_refl). reflexivity.
+  intros g h H. cbn [step_with]. destruct (handle g h) as [ob|] eqn:E; [|reflexivity]. rewrite (H ob eq_refl). reflexivity.
 Qed.
+
+(* WITH THE FIX: it resets the frontend caches all the same *)
+Theorem clear_without_ir_fixed : forall g h, (forall ob, handle g h = Some ob -> has_ir g ob = false) ->
+  step_with true g (MClear h) = (clear_frontend g, OAck).
+Proof.
+  intros g h H. cbn [step_with]. destruct (handle g h) as [ob|] eqn:E; [|reflexivity]. rewrite (H ob eq_refl). reflexivity.
+Qed.
+
+(* pyrates.clear(circuit) on a circuit that holds an IR: every frontend cache, template cache included *)
+Theorem uclear_resets : forall fx g h ob, handle g h = Some ob -> has_ir g ob = true ->
+  frontend_clean (fst (step_with fx g (UClear h))) = true /\ template_cache (fst (step_with fx g (UClear h))) = None.
+Proof. intros fx g h ob H1 H2. cbn [step_with]. rewrite H1, H2. destruct fx; cbn; auto. Qed.
+
+(* BEFORE THE FIX: on a circuit without IR it is clear_frontend_caches(): in_edge_indices, in_edge_vars, input_labels stay *)
+Theorem uclear_without_ir_before_fix : forall g h, (forall ob, handle g h = Some ob -> has_ir g ob = false) ->
+  fst (step_with false g (UClear h)) = cfc_with false true true g.
+Proof.
+  intros g h H. cbn [step_with]. destruct (handle g h) as [ob|] eqn:E; [|reflexivity]. rewrite (H ob eq_refl). reflexivity.
+Qed.
+
+Theorem uclear_fixed : forall g h,
+  frontend_clean (fst (step_with true g (UClear h))) = true /\ template_cache (fst (step_with true g (UClear h))) = None.
+Proof. intros g h. cbn [step_with]. destruct (handle g h) as [ob|]; [destruct (has_ir g ob)|]; cbn; auto. Qed.
 
 (* exactly which components clear_frontend_caches covers *)
-Theorem cfc_resets_only : forall g tc ic,
-  proj (fst (step g (CFC tc ic))) =
+Theorem cfc_resets_only : forall fx g tc ic,
+  proj (fst (step_with fx g (CFC tc ic))) =
   {| p_opc := if ic then [] else op_cache g; p_nodec := if ic then [] else node_cache g;
      p_labels := if ic then [] else node_labels g;
-     p_iei := in_edge_indices g; p_iev := in_edge_vars g; p_inl := input_labels g;
+     p_iei := if fx && ic then [] else in_edge_indices g; p_iev := if fx && ic then [] else in_edge_vars g;
+     p_inl := if fx && ic then [] else input_labels g; p_py := sys_py (mods g);
      p_tmut := if tc then None else p_tmut (proj g) |}.
-Proof. intros. destruct tc, ic; reflexivity. Qed.
+Proof. intros. destruct fx, tc, ic; reflexivity. Qed.
 
-(* get_run_func/run with clear=True that succeeds leaves the caches as a fresh process has them *)
-Theorem compile_clear_resets : forall g m vec inpl,
-  (forall c, snd (step g (Compile m vec true inpl)) <> OErr c) ->
-  caches_clean (fst (step g (Compile m vec true inpl))) = true.
+Lemma remove_add_nil : forall f, remove_s f (add_s f []) = [].
+Proof. intros f. cbn. rewrite String.eqb_refl. reflexivity. Qed.
+
+Lemma compile_obj_clean : forall g o m vec, sys_py (mods g) = [] -> (forall c, snd (compile_obj g o m vec true) <> OErr c) ->
+  caches_clean (fst (compile_obj g o m vec true)) = true /\
+  template_cache (fst (compile_obj g o m vec true)) = template_cache g /\
+  ext_mods (mods (fst (compile_obj g o m vec true))) = ext_mods (mods g).
 Proof.
-  intros g m vec inpl H. cbn [step new_obj] in *. unfold compile_obj in *.
-  destruct (c_obs _) eqn:E; cbn in *; try reflexivity.
+  intros g o m vec Hp. unfold compile_obj. destruct (c_obs _) eqn:E; cbn; intros H.
   - exfalso. eapply H. reflexivity.
   - exfalso. eapply compile_core_not_ack. exact E.
+  - rewrite Hp. unfold caches_clean. cbn. unfold file_of. cbn. rewrite String.eqb_refl. cbn. auto.
+Qed.
+
+Lemma fcompile_obj_clean : forall g o m file, sys_py (mods g) = [] -> (forall c, snd (fcompile_obj g o m file true) <> OErr c) ->
+  caches_clean (fst (fcompile_obj g o m file true)) = true /\
+  template_cache (fst (fcompile_obj g o m file true)) = template_cache g.
+Proof.
+  intros g o m file Hp. unfold fcompile_obj. destruct (c_obs _) eqn:E; cbn; intros H.
+  - exfalso. eapply H. reflexivity.
+  - exfalso. eapply compile_core_not_ack. exact E.
+  - rewrite Hp in *. cbn in *. unfold caches_clean. cbn. auto.
+Qed.
+
+(* get_run_func/run/get_jacobian_func with clear=True that succeeds leaves the caches as a fresh process has them
+   (when no Python module of another file name is registered) *)
+Theorem compile_clear_resets : forall fx g m vec inpl, sys_py (mods g) = [] ->
+  (forall c, snd (step_with fx g (Compile m vec true inpl)) <> OErr c) ->
+  caches_clean (fst (step_with fx g (Compile m vec true inpl))) = true.
+Proof.
+  intros fx g m vec inpl Hp H. cbn [step_with new_obj] in *.
+  match goal with |- caches_clean (fst (compile_obj ?G ?O _ _ _)) = _ =>
+    destruct (compile_obj_clean G O m vec Hp H) as [K _] end. exact K.
 Qed.
 
 (* ------------------------------------------------------------------ frame: which components a step can write *)
 Lemma compile_obj_frame : forall g o m vec clr,
   template_cache (fst (compile_obj g o m vec clr)) = template_cache g /\
   handles (fst (compile_obj g o m vec clr)) = handles g /\ nobj (fst (compile_obj g o m vec clr)) = nobj g /\
+  ext_mods (mods (fst (compile_obj g o m vec clr))) = ext_mods (mods g) /\
   (input_labels (fst (compile_obj g o m vec clr)) = input_labels g \/ input_labels (fst (compile_obj g o m vec clr)) = []).
 Proof.
-  intros. unfold compile_obj. destruct (c_obs _); cbn; auto. destruct clr; cbn; auto.
+  intros. unfold compile_obj. destruct (c_obs _); cbn; auto 7. destruct clr; cbn; repeat split; auto.
 Qed.
 
-(* a compilation never touches the template cache; it registers exactly one new circuit object *)
-Theorem compile_frame : forall g m vec clr inpl,
-  let g' := fst (step g (Compile m vec clr inpl)) in
-  template_cache g' = template_cache g /\ handles g' = (handles g ++ [nobj g])%list /\ nobj g' = S (nobj g).
+(* a default-backend compilation never touches the template cache nor the table of extension modules; it registers exactly
+   one new circuit object *)
+Theorem compile_frame : forall fx g m vec clr inpl,
+  let g' := fst (step_with fx g (Compile m vec clr inpl)) in
+  template_cache g' = template_cache g /\ handles g' = (handles g ++ [nobj g])%list /\ nobj g' = S (nobj g) /\
+  ext_mods (mods g') = ext_mods (mods g).
 Proof.
-  intros. subst g'. cbn [step new_obj].
-  destruct (compile_obj_frame (push_handle (nobj g)
-    {| op_cache := op_cache g; node_cache := node_cache g; node_labels := node_labels g; in_edge_indices := in_edge_indices g;
-       in_edge_vars := in_edge_vars g; input_labels := input_labels g; template_cache := template_cache g;
-       module_cache := module_cache g; heap := upsert Nat.eqb (nobj g) false (heap g); handles := handles g; nobj := S (nobj g) |})
-    (nobj g) m vec clr) as (A & B & C & _).
-  rewrite A, B, C. cbn. auto.
+  intros. subst g'. cbn [step_with new_obj].
+  match goal with |- context [compile_obj ?G ?O _ _ _] => destruct (compile_obj_frame G O m vec clr) as (A & B & C & D & _) end.
+  rewrite A, B, C, D. cbn. auto.
 Qed.
 
-(* the three clearing calls only ever empty caches: each component is unchanged or empty afterwards *)
+(* the three clearing calls only ever empty caches: each component is unchanged or empty afterwards; nothing is ever removed
+   from the table of extension modules *)
 Definition same_or_nil {A} (a b : list A) : Prop := a = b \/ a = [].
-Theorem clear_steps_only_empty : forall g o, (exists h, o = MClear h) \/ (exists h, o = UClear h) \/ (exists tc ic, o = CFC tc ic) ->
-  let g' := fst (step g o) in
+Theorem clear_steps_only_empty : forall fx g o, (exists h, o = MClear h) \/ (exists h, o = UClear h) \/ (exists tc ic, o = CFC tc ic) ->
+  let g' := fst (step_with fx g o) in
   same_or_nil (op_cache g') (op_cache g) /\ same_or_nil (node_cache g') (node_cache g) /\
   same_or_nil (node_labels g') (node_labels g) /\ same_or_nil (in_edge_indices g') (in_edge_indices g) /\
   same_or_nil (in_edge_vars g') (in_edge_vars g) /\ same_or_nil (input_labels g') (input_labels g) /\
-  (template_cache g' = template_cache g \/ template_cache g' = None) /\ module_cache g' = module_cache g.
+  (template_cache g' = template_cache g \/ template_cache g' = None) /\ module_cache g' = module_cache g /\
+  ext_mods (mods g') = ext_mods (mods g).
 Proof.
-  unfold same_or_nil. intros g o [[h E]|[[h E]|[tc [ic E]]]]; subst o; cbn [step].
-  - destruct (handle g h); [destruct (has_ir g n)|]; cbn; repeat split; auto.
-  - destruct (handle g h); [destruct (has_ir g n)|]; cbn; repeat split; auto.
-  - destruct tc, ic; cbn; repeat split; auto.
+  unfold same_or_nil. intros fx g o [[h E]|[[h E]|[tc [ic E]]]]; subst o; cbn [step_with].
+  - destruct (handle g h); [destruct (has_ir g n)|]; destruct fx; cbn; repeat split; auto.
+  - destruct (handle g h); [destruct (has_ir g n)|]; destruct fx; cbn; repeat split; auto.
+  - destruct fx, tc, ic; cbn; repeat split; auto.
+Qed.
+
+(* no step ever removes an entry of the table of extension modules: D29 is not cured by any clearing call *)
+Lemma fcompile_obj_ext : forall g o m file clr f s,
+  lookup String.eqb f (ext_mods (mods g)) = Some s -> lookup String.eqb f (ext_mods (mods (fst (fcompile_obj g o m file clr)))) = Some s.
+Proof.
+  intros g o m file clr f s H. unfold fcompile_obj. destruct (c_obs _); cbn; auto.
+  destruct (existsb _ _); cbn; auto.
+  destruct (lookup String.eqb file (ext_mods (mods g))) eqn:E; destruct clr; cbn; auto;
+    destruct (String.eqb f file) eqn:F; auto; apply String.eqb_eq in F; subst; rewrite H in E; discriminate.
+Qed.
+
+Theorem ext_mods_persist : forall fx g o f s,
+  lookup String.eqb f (ext_mods (mods g)) = Some s -> lookup String.eqb f (ext_mods (mods (fst (step_with fx g o)))) = Some s.
+Proof.
+  intros fx g o f s H. destruct o; cbn [step_with new_obj].
+  - match goal with |- context [compile_obj ?G ?O ?M ?V ?C] => destruct (compile_obj_frame G O M V C) as (_ & _ & _ & D & _) end.
+    rewrite D. exact H.
+  - match goal with |- context [compile_obj ?G ?O ?M ?V ?C] => destruct (compile_obj_frame G O M V C) as (_ & _ & _ & D & _) end.
+    rewrite D. exact H.
+  - match goal with |- context [compile_obj ?G ?O ?M ?V ?C] => destruct (compile_obj_frame G O M V C) as (_ & _ & _ & D & _) end.
+    rewrite D. exact H.
+  - apply fcompile_obj_ext. cbn. exact H.
+  - unfold from_yaml. destruct (template_cache g); cbn;
+      match goal with |- context [compile_obj ?G ?O ?M ?V ?C] => destruct (compile_obj_frame G O M V C) as (_ & _ & _ & D & _) end;
+      rewrite D; exact H.
+  - unfold from_yaml. destruct (template_cache g); cbn; exact H.
+  - destruct (handle g h); [destruct (has_ir g n)|]; destruct fx; cbn; exact H.
+  - destruct (handle g h); [destruct (has_ir g n)|]; destruct fx; cbn; exact H.
+  - cbn. exact H.
 Qed.
 
 (* ------------------------------------------------------------------ a syntactic guard: disciplined histories *)
 Definition is_err (o : obs) : bool := match o with OErr _ => true | _ => false end.
-Definition no_error (h : list hop) (g : G) : bool := forallb (fun o => negb (is_err o)) (trace h g).
 (* errors that matter: a compilation that raises leaves the caches dirty (the clear=True never runs) *)
-Fixpoint no_compile_error (h : list hop) (g : G) : bool :=
+Fixpoint no_compile_error_with (fx : bool) (h : list hop) (g : G) : bool :=
   match h with
   | [] => true
-  | o :: h' => (match o with MClear _ => true | _ => negb (is_err (snd (step g o))) end) && no_compile_error h' (fst (step g o))
+  | o :: h' => (match o with MClear _ => true | _ => negb (is_err (snd (step_with fx g o))) end) &&
+               no_compile_error_with fx h' (fst (step_with fx g o))
   end.
+Definition no_compile_error := no_compile_error_with fixed_clear.
 
-Lemma compile_obj_clean : forall g o m vec, is_err (snd (compile_obj g o m vec true)) = false ->
-  caches_clean (fst (compile_obj g o m vec true)) = true /\
-  template_cache (fst (compile_obj g o m vec true)) = template_cache g.
-Proof.
-  intros g o m vec. unfold compile_obj. destruct (c_obs _) eqn:E; cbn; intros H; try discriminate; auto.
-  exfalso. eapply compile_core_not_ack. exact E.
-Qed.
+Lemma not_err : forall o, is_err o = false -> forall c, o <> OErr c.
+Proof. intros o H c E. subst. discriminate. Qed.
 
 Lemma from_yaml_caches : forall g, caches_clean (fst (from_yaml g)) = caches_clean g /\
   template_clean (fst (from_yaml g)) = template_clean g /\
@@ -282,59 +421,85 @@ Proof.
   - repeat split; auto.
 Qed.
 
-Lemma disciplined_inv : forall h g tmut,
+Lemma clear_frontend_clean : forall g, sys_py (mods g) = [] -> caches_clean (clear_frontend g) = true.
+Proof. intros g H. unfold caches_clean. cbn. rewrite H. reflexivity. Qed.
+
+Lemma disciplined_inv : forall fx h g tmut,
   caches_clean g = true -> (tmut = false -> template_clean g = true) ->
-  disciplined tmut h = true -> no_compile_error h g = true ->
-  clean (run_hist h g) = true.
+  disciplined tmut h = true -> no_compile_error_with fx h g = true ->
+  clean (run_hist_with fx h g) = true.
 Proof.
   induction h as [|o h IH]; intros g tmut Hc Ht Hd Hn.
   - cbn in *. unfold clean. rewrite Hc. cbn. apply Ht. destruct tmut; [discriminate|reflexivity].
-  - cbn [run_hist fold_left]. change (fold_left (fun g o => fst (step g o)) h (fst (step g o))) with (run_hist h (fst (step g o))).
-    cbn [no_compile_error] in Hn. apply andb_true_iff in Hn as [Hn1 Hn2].
-    destruct o as [m vec clr ip|m vec clr ip|clr|v|hh|hh|tc ic]; cbn [disciplined] in Hd.
+  - cbn [run_hist_with fold_left].
+    change (fold_left (fun g o => fst (step_with fx g o)) h (fst (step_with fx g o))) with (run_hist_with fx h (fst (step_with fx g o))).
+    cbn [no_compile_error_with] in Hn. apply andb_true_iff in Hn as [Hn1 Hn2].
+    pose proof (caches_clean_fields g Hc) as (A & B & C & D & E & F & P).
+    destruct o as [m vec clr ip|m vec clr ip|m vec clr ip|m file clr|clr|v|hh|hh|tc ic]; cbn [disciplined] in Hd.
     + apply andb_true_iff in Hd as [Hclr Hd]. subst clr.
-      apply negb_true_iff in Hn1. cbn [step new_obj] in *.
+      apply negb_true_iff in Hn1. cbn [step_with new_obj] in *.
       match type of Hn1 with is_err (snd (compile_obj ?G ?O _ _ _)) = _ =>
-        destruct (compile_obj_clean G O m vec Hn1) as [K1 K2] end.
-      eapply IH; eauto. intros E. unfold template_clean. rewrite K2. cbn. apply Ht. exact E.
+        destruct (compile_obj_clean G O m vec P (not_err _ Hn1)) as (K1 & K2 & _) end.
+      eapply IH; eauto. intros X. unfold template_clean. rewrite K2. cbn. apply Ht. exact X.
     + apply andb_true_iff in Hd as [Hclr Hd]. subst clr.
-      apply negb_true_iff in Hn1. cbn [step new_obj] in *.
+      apply negb_true_iff in Hn1. cbn [step_with new_obj] in *.
       match type of Hn1 with is_err (snd (compile_obj ?G ?O _ _ _)) = _ =>
-        destruct (compile_obj_clean G O m vec Hn1) as [K1 K2] end.
-      eapply IH; eauto. intros E. unfold template_clean. rewrite K2. cbn. apply Ht. exact E.
+        destruct (compile_obj_clean G O m vec P (not_err _ Hn1)) as (K1 & K2 & _) end.
+      eapply IH; eauto. intros X. unfold template_clean. rewrite K2. cbn. apply Ht. exact X.
     + apply andb_true_iff in Hd as [Hclr Hd]. subst clr.
-      apply negb_true_iff in Hn1. cbn [step] in *.
+      apply negb_true_iff in Hn1. cbn [step_with new_obj] in *.
+      match type of Hn1 with is_err (snd (compile_obj ?G ?O _ _ _)) = _ =>
+        destruct (compile_obj_clean G O m vec P (not_err _ Hn1)) as (K1 & K2 & _) end.
+      eapply IH; eauto. intros X. unfold template_clean. rewrite K2. cbn. apply Ht. exact X.
+    + apply andb_true_iff in Hd as [Hclr Hd]. subst clr.
+      apply negb_true_iff in Hn1. cbn [step_with new_obj] in *.
+      match type of Hn1 with is_err (snd (fcompile_obj ?G ?O _ _ _)) = _ =>
+        destruct (fcompile_obj_clean G O m file P (not_err _ Hn1)) as (K1 & K2) end.
+      eapply IH; eauto. intros X. unfold template_clean. rewrite K2. cbn. apply Ht. exact X.
+    + apply andb_true_iff in Hd as [Hclr Hd]. subst clr.
+      apply negb_true_iff in Hn1. cbn [step_with] in *.
       destruct (from_yaml_caches g) as (F1 & F2 & F3 & F4).
+      assert (P1 : sys_py (mods (fst (from_yaml g))) = []).
+      { unfold from_yaml. destruct (template_cache g); cbn; exact P. }
       destruct (from_yaml g) as [g1 e]. cbn [fst snd] in *.
       match type of Hn1 with is_err (snd (compile_obj ?G ?O ?M _ _)) = _ =>
-        destruct (compile_obj_clean G O M false Hn1) as [K1 K2] end.
-      eapply IH; eauto. intros E. unfold template_clean. rewrite K2. cbn. rewrite F3.
-      rewrite F4; [reflexivity|]. apply Ht. exact E.
-    + cbn [step] in *. destruct (from_yaml_caches g) as (F1 & F2 & F3 & F4).
+        destruct (compile_obj_clean G O M false P1 (not_err _ Hn1)) as (K1 & K2 & _) end.
+      eapply IH; eauto. intros X. unfold template_clean. rewrite K2. cbn. rewrite F3.
+      rewrite F4; [reflexivity|]. apply Ht. exact X.
+    + cbn [step_with] in *. destruct (from_yaml_caches g) as (F1 & F2 & F3 & F4).
       destruct (from_yaml g) as [g1 e]. cbn [fst snd] in *.
       eapply IH with (tmut := true); eauto; try discriminate.
-    + cbn [step] in *. destruct (handle g hh) as [ob|]; [destruct (has_ir g ob)|]; cbn [fst] in *;
-        try (eapply IH; eauto; fail).
-    + cbn [step] in *.
+    + cbn [step_with] in *.
+      assert (K : caches_clean (fst (match handle g hh with
+                  | Some ob => if has_ir g ob then (set_ir ob false (clear_caches ob g), OAck)
+                               else if fx then (clear_frontend g, OAck) else (g, OErr "AttributeError")
+                  | None => if fx then (clear_frontend g, OAck) else (g, OErr "AttributeError") end)) = true /\
+                  template_cache (fst (match handle g hh with
+                  | Some ob => if has_ir g ob then (set_ir ob false (clear_caches ob g), OAck)
+                               else if fx then (clear_frontend g, OAck) else (g, OErr "AttributeError")
+                  | None => if fx then (clear_frontend g, OAck) else (g, OErr "AttributeError") end)) = template_cache g).
+      { destruct (handle g hh) as [ob|]; [destruct (has_ir g ob)|]; destruct fx; cbn; split; auto;
+          try (apply clear_frontend_clean; exact P); unfold caches_clean; cbn; rewrite P; reflexivity. }
+      destruct K as [K1 K2]. eapply IH; eauto. intros X. unfold template_clean. rewrite K2. apply Ht. exact X.
+    + cbn [step_with] in *.
       assert (K : clean (fst (match handle g hh with
-                  | Some ob => if has_ir g ob then (cfc true true (set_ir ob false (clear_caches g)), OAck) else (cfc true true g, OAck)
-                  | None => (cfc true true g, OAck) end)) = true).
-      { apply caches_clean_fields in Hc as (A & B & C & D & E & F).
-        destruct (handle g hh) as [ob|]; [destruct (has_ir g ob)|]; cbn; unfold clean, caches_clean, template_clean; cbn;
-          rewrite ?A, ?B, ?C, ?D, ?E, ?F; reflexivity. }
+                  | Some ob => if has_ir g ob then (cfc_with fx true true (set_ir ob false (clear_caches ob g)), OAck)
+                               else (cfc_with fx true true (if fx then clear_frontend g else g), OAck)
+                  | None => (cfc_with fx true true (if fx then clear_frontend g else g), OAck) end)) = true).
+      { destruct (handle g hh) as [ob|]; [destruct (has_ir g ob)|]; destruct fx; cbn; unfold clean, caches_clean, template_clean; cbn;
+          rewrite ?A, ?B, ?C, ?D, ?E, ?F, ?P; reflexivity. }
       unfold clean in K. apply andb_true_iff in K as [K1 K2].
       eapply IH with (tmut := false); eauto.
-    + cbn [step fst] in *.
+    + cbn [step_with fst] in *.
       eapply IH with (tmut := tmut && negb tc); eauto.
-      * apply caches_clean_fields in Hc as (A & B & C & D & E & F).
-        unfold caches_clean, cfc. cbn. rewrite A, B, C, D, E, F. destruct ic; reflexivity.
-      * intros E. unfold template_clean, cfc. cbn. destruct tc; [reflexivity|].
+      * unfold caches_clean, cfc_with. cbn. rewrite A, B, C, D, E, F, P. destruct ic, fx; reflexivity.
+      * intros X. unfold template_clean, cfc_with. cbn. destruct tc; [reflexivity|].
         apply Ht. destruct tmut; [discriminate|reflexivity].
 Qed.
 
 Theorem disciplined_compatible : forall h, disciplined false h = true -> no_compile_error h G0 = true -> Compatible h = true.
 Proof.
-  intros h Hd Hn. change (Compatible h) with (clean (run_hist h G0)).
+  intros h Hd Hn. change (Compatible h) with (clean (run_hist_with fixed_clear h G0)).
   eapply disciplined_inv; eauto.
 Qed.
 
